@@ -131,6 +131,15 @@ static void op_construct(int kind, long forced_len)
         d = gen_bytes(n);
         chan_open(&c, ch, d, n);
         snprintf(opn, sizeof opn, "%s", ch < 2 ? "new_from_fd" : "new_from_fp");
+        /* a regular file that has been read from before (a header, say): what the descriptor or stream still delivers is what lies ahead of its
+         * position, and that is the value */
+        if ((ch == CH_FD_FILE || ch == CH_FP_FILE) && n > 0 && forced_len < 0 && vh_coin(20)) {
+            long off = vh_coin(15) ? n : vh_range(1, n);
+            if (c.fp) { if (fseek(c.fp, off, SEEK_SET)) abort(); } else if (lseek(c.fd, (off_t) off, SEEK_SET) != (off_t) off) abort();
+            vh_op("  (positioned %ld bytes into the file first)", off);
+            memmove(d, d + off, (size_t) (n - off)); n -= off;
+            vh_count("files_positioned_past_their_start", 1);
+        }
         vh_op("%s(%s holding %ld bytes) [%s] -> slot %d", opn, CHNAME[ch], n, RT(rt), i);
         o = ch < 2 ? X_new_from_fd(rt, c.fd) : X_new_from_fp(rt, c.fp);
         chan_close(&c);
